@@ -185,10 +185,12 @@ func specs() []rsx.RouteSpec {
 	return out
 }
 
-func requests() []rsx.Req {
+func requests() []rsx.Req { return requestsFor([]string{"", "a.b"}) }
+
+func requestsFor(hosts []string) []rsx.Req {
 	var out []rsx.Req
 	paths := append(rsx.GenPaths([]string{"a", "b"}, 2), "*")
-	for _, h := range []string{"", "a.b"} {
+	for _, h := range hosts {
 		for _, p := range paths {
 			for _, m := range []string{"GET", "POST", "DELETE", "FOO", "OPTIONS", "CONNECT"} {
 				if p == "*" && m != "OPTIONS" {
@@ -221,12 +223,19 @@ func run(c *mc.Ctx, r *mc.Result) {
 	if c.Quick() {
 		k = 2
 	}
-	runSpecs(c, r, "space", specs(), k)
-	runSpecs(c, r, "space.candidates", specs2(), 3)
+	runSpecs(c, r, "space", specs(), k, requests())
+	runSpecs(c, r, "space.candidates", specs2(), 3, requests())
+	// method trees of different kinds side by side: one method with path-only routes whose direct match
+	// leaves a parameter alternative pending, other methods with hostname routes only; Hosts that share
+	// a first byte with a registered hostname without matching it
+	var sp3 []rsx.RouteSpec
+	for _, x := range [][2]string{{"GET", "/a"}, {"GET", "/{x}/a"}, {"GET", "/{x}"}, {"POST", "a.b/a"}, {"POST", "{h}.b/a"}, {"FOO", "a.b/a"}, {"FOO", "/a"}} {
+		sp3 = append(sp3, rsx.RouteSpec{Method: x[0], Pattern: x[1]})
+	}
+	runSpecs(c, r, "space.mixed-trees", sp3, 4, requestsFor([]string{"", "a.b", "ab", "aa", "a", "b.b", "a.bb"}))
 }
 
-func runSpecs(c *mc.Ctx, r *mc.Result, name string, sp []rsx.RouteSpec, k int) {
-	rqs := requests()
+func runSpecs(c *mc.Ctx, r *mc.Result, name string, sp []rsx.RouteSpec, k int, rqs []rsx.Req) {
 	// second pass in reverse order: every request then follows a different predecessor on the
 	// recycled context
 	seq := append(append([]rsx.Req{}, rqs...), reversed(rqs)...)
